@@ -120,31 +120,40 @@ inductive LoopOut
   | fin (h : Array It) (dead : List It)
   | err
   | fuel
+  | cont (cur : It) (h : Array It) (dead : List It) (changed : Bool)
 deriving Repr, Inhabited
+
+/-- `c.curr = heap.Pop(&c.h); currT = c.curr.AtT(); if currT != c.lastT { break }` -/
+def popStep (lastT : Int) (h : Array It) (dead : List It) : LoopOut :=
+  match GoHeap.pop ltIt h with
+  | none => .fuel
+  | some (x, h') =>
+    match x.cur with
+    | none => .fuel
+    | some s => if s.t ≠ lastT then .brk x s h' dead true else .cont x h' dead true
+
+/-- one pass through the body of the `for { … }` loop of `Next` (`cont` = go round again) -/
+def loopStep (lastT : Int) (cur : It) (h : Array It) (dead : List It) (changed : Bool) : LoopOut :=
+  match cur.next with
+  | (cur', none) =>
+    if cur'.err then .err
+    else if h.size = 0 then .fin h (cur' :: dead)
+    else popStep lastT h (cur' :: dead)
+  | (cur', some s) =>
+    if s.t = lastT then .cont cur' h dead changed
+    else if h.size = 0 then .brk cur' s h dead changed
+    else
+      let nextT := match h[0]? with | some x => x.atT | none => 0
+      if s.t < nextT then .brk cur' s h dead changed
+      else popStep lastT (GoHeap.push ltIt h cur') dead
 
 /-- the `for { … }` loop of `Next` -/
 def nextLoop (lastT : Int) : Nat → It → Array It → List It → Bool → LoopOut
   | 0, _, _, _, _ => .fuel
   | fuel + 1, cur, h, dead, changed =>
-    let popBranch (h : Array It) (dead : List It) : LoopOut :=
-      match GoHeap.pop ltIt h with
-      | none => .fuel
-      | some (x, h') =>
-        match x.cur with
-        | none => .fuel
-        | some s => if s.t ≠ lastT then .brk x s h' dead true else nextLoop lastT fuel x h' dead true
-    match cur.next with
-    | (cur', none) =>
-      if cur'.err then .err
-      else if h.size = 0 then .fin h (cur' :: dead)
-      else popBranch h (cur' :: dead)
-    | (cur', some s) =>
-      if s.t = lastT then nextLoop lastT fuel cur' h dead changed
-      else if h.size = 0 then .brk cur' s h dead changed
-      else
-        let nextT := match h[0]? with | some x => x.atT | none => 0
-        if s.t < nextT then .brk cur' s h dead changed
-        else popBranch (GoHeap.push ltIt h cur') dead
+    match loopStep lastT cur h dead changed with
+    | .cont cur' h' dead' changed' => nextLoop lastT fuel cur' h' dead' changed'
+    | o => o
 
 def loopFuel (cur : It) (h : Array It) : Nat :=
   (cur :: h.toList).foldl (fun n it => n + it.rest.length + 1) 1
@@ -156,6 +165,7 @@ def Chain.finishLoop (c : Chain) (o : LoopOut) : Chain × Res :=
   | .fin h dead => ({ c with curr := none, h := some h, dead }, .fin)
   | .err => ({ c with failed := true }, .err)
   | .fuel => ({ c with failed := true }, .panic)
+  | .cont .. => ({ c with failed := true }, .panic)
 
 def Chain.next (c : Chain) : Chain × Res :=
   if c.failed then (c, .err) else
